@@ -80,7 +80,7 @@ def run(tier, seed):
     wd = core.subdir("c30")
 
     # ---- configurations for the replay, classified by the spec
-    cfgs, n_sys = L.sample_configs(rng, 50 if quick else 900, 25 if quick else 160, 10 if quick else 50)
+    cfgs, n_sys = L.sample_configs(rng, 50 if quick else 400, 25 if quick else 100, 10 if quick else 30)
     by_id = {c["id"]: c for c in cfgs}
     casef = os.path.join(wd, "cases.ndjson")
     core.write_ndjson(casef, cfgs)
@@ -116,7 +116,7 @@ def run(tier, seed):
         lattice += [("sig3", "sig slice, <= 3 fields"), ("flags1all", "flags slice, all 256 option sets, 1 field, histories <= 3"),
                     ("flags2", "flags slice, 64 option sets, <= 2 fields"), ("deferr2all", "definition-error slice incl. kw_only/match_args, call shapes")]
     # thorough: deeper histories for the systematic configurations
-    deep_ids = set() if quick else {c["id"] for c in cfgs[:n_sys]}
+    deep_ids = set() if quick else {c["id"] for c in cfgs[:26]}
     case_runs = [("cases3", [c for c in cfgs if c["id"] not in deep_ids and c["id"] not in err_ids])]
     if deep_ids:
         case_runs.append(("cases4", [c for c in cfgs if c["id"] in deep_ids and c["id"] not in err_ids]))
@@ -128,9 +128,11 @@ def run(tier, seed):
             f = os.path.join(wd, name + ".ndjson")
             core.write_ndjson(f, sub)
             futs[("cases", name)] = ex.submit(_tlc, name, {"CASES": f})
+        for name, _ in lattice[3:]:       # the long ones first
+            futs[("lattice", name)] = ex.submit(_tlc, name)
         for name, ids, cy_only in groups:
             futs[("build", name)] = ex.submit(L.build_with_rejects, "c30" + name, [by_id[i] for i in ids], bares, bdir, cy_only)
-        for name, _ in lattice:
+        for name, _ in lattice[:3]:
             futs[("lattice", name)] = ex.submit(_tlc, name)
         res = {k: f.result() for k, f in futs.items()}
 
